@@ -70,7 +70,7 @@ func Check() *core.Check {
 			if tier == "thorough" {
 				return 8000
 			}
-			return 600
+			return 450
 		},
 		MinConclusive: func(tier string) int { return 100 },
 		NumPinned:     1 + len(pinnedProgs) + 2 + 2,
